@@ -718,6 +718,16 @@ fn api_run(kind: &str, ops: &[String]) -> String {
                     Some(r!($vm.set_stack_usage_calculator(calc_fn, Box::new(spec))))
                 }
                 "jit" => Some(r!(jitc!($vm))),
+                // setx: hand executable memory to the VM (only exists without std; "ok" either way);
+                // jitx: jit_compile() with whatever memory the VM holds at that point
+                "setx" => {
+                    #[cfg(not(feature = "std"))]
+                    {
+                        let _ = $vm.set_jit_exec_memory(exec_mem());
+                    }
+                    Some("ok".to_string())
+                }
+                "jitx" => Some(r!($vm.jit_compile())),
                 #[cfg(feature = "cranelift")]
                 "cl" => Some(r!($vm.cranelift_compile())),
                 _ => None,
